@@ -3,25 +3,56 @@
 #ifndef TETL_CMATH_FMOD_HPP
 #define TETL_CMATH_FMOD_HPP
 
+#include <etl/_config/all.hpp>
+
 #include <etl/_3rd_party/gcem/gcem.hpp>
+#include <etl/_type_traits/is_constant_evaluated.hpp>
+#include <etl/_type_traits/is_same.hpp>
 
 namespace etl {
+
+namespace detail {
+
+template <typename T>
+[[nodiscard]] constexpr auto fmod(T x, T y) noexcept -> T
+{
+    if (not is_constant_evaluated()) {
+        if constexpr (is_same_v<T, float>) {
+#if __has_builtin(__builtin_fmodf)
+            return __builtin_fmodf(x, y);
+#endif
+        }
+        if constexpr (is_same_v<T, double>) {
+#if __has_builtin(__builtin_fmod)
+            return __builtin_fmod(x, y);
+#endif
+        }
+        if constexpr (is_same_v<T, long double>) {
+#if __has_builtin(__builtin_fmodl)
+            return __builtin_fmodl(x, y);
+#endif
+        }
+    }
+    return detail::gcem::fmod(x, y);
+}
+
+} // namespace detail
 
 /// \ingroup cmath
 /// @{
 
 /// Computes the floating-point remainder of the division operation x/y.
 /// \details https://en.cppreference.com/w/cpp/numeric/math/fmod
-[[nodiscard]] constexpr auto fmod(float x, float y) noexcept -> float { return etl::detail::gcem::fmod(x, y); }
-[[nodiscard]] constexpr auto fmodf(float x, float y) noexcept -> float { return etl::detail::gcem::fmod(x, y); }
-[[nodiscard]] constexpr auto fmod(double x, double y) noexcept -> double { return etl::detail::gcem::fmod(x, y); }
+[[nodiscard]] constexpr auto fmod(float x, float y) noexcept -> float { return etl::detail::fmod(x, y); }
+[[nodiscard]] constexpr auto fmodf(float x, float y) noexcept -> float { return etl::detail::fmod(x, y); }
+[[nodiscard]] constexpr auto fmod(double x, double y) noexcept -> double { return etl::detail::fmod(x, y); }
 [[nodiscard]] constexpr auto fmod(long double x, long double y) noexcept -> long double
 {
-    return etl::detail::gcem::fmod(x, y);
+    return etl::detail::fmod(x, y);
 }
 [[nodiscard]] constexpr auto fmodl(long double x, long double y) noexcept -> long double
 {
-    return etl::detail::gcem::fmod(x, y);
+    return etl::detail::fmod(x, y);
 }
 
 /// @}
